@@ -229,6 +229,7 @@ def reference(w, fixed=None):
 
         ref.C0 = collections.Counter(c.key() for c in sim.calls)
         ref.elements, ref.ext_index = {}, {}
+        ref.mismatch = C.independent_mismatch(w, ref.R0) if not fixed else None
         ref.L0 = dict(ref.R0)  # what load_outputs returns: the stored array (elements outside a restricted run are masked)
         for o in all_outputs(w):
             st = res[o].store
@@ -570,6 +571,13 @@ def _run_case(case, exec_seed=None, exec_tape=None):
     if ref.error is not None:
         out["discarded"] = True
         out["exec_tape"] = []
+        return out
+    if ref.mismatch:
+        out["violations"].append({"property": PID, "oracle": "independent", "signature": None,
+                                  "kind": "sequential-run-differs-from-independent-reading-of-the-workload", "detail": ref.mismatch,
+                                  "case": {"mode": "plan", "workload": w, "config": cfg, "plan": []}, "exec_tape": []})
+        out["exec_tape"] = []
+        out["evaluations"] = 1
         return out
     if case["mode"] == "plan":
         tape = Tape(exec_seed) if exec_tape is None else Tape(recorded=exec_tape)
